@@ -6,7 +6,7 @@ CONSTANTS
   MaxScript = 3
   MaxBlocks = 2
   Variant = "fixed"
-  Limits = {1, 2, 100}
+  Limits = {1, 100}
   Producers = {"v1", "v2"}
 INVARIANTS AcceptTypeOK ChunksExact PrefixExact NeverFails
 CHECK_DEADLOCK FALSE
